@@ -676,6 +676,27 @@ def _render_docstring_escapes(repo: Repo) -> Set[str]:
             tail_ok = False
         if tail_ok:
             esc |= got
+    if not esc:
+        # second shape: `return "\n".join([quotes, *[helper(x) for x in body], quotes])` - every non-constant element of the
+        # returned sequence goes through the escaping comprehension
+        from sa.match import Locals as _L15
+
+        RL = _L15(fn.node)
+        rv = RL.inline(ret.value, stop=tuple(RL.params))
+        if isinstance(rv, ast.Call) and isinstance(rv.func, ast.Attribute) and rv.func.attr == "join" and len(rv.args) == 1 and isinstance(rv.args[0], (ast.List, ast.Tuple)):
+            per: List[Set[str]] = []
+            ok = True
+            for el in rv.args[0].elts:
+                if isinstance(el, ast.Constant) and isinstance(el.value, str):
+                    continue
+                v = el.value if isinstance(el, ast.Starred) else None
+                if isinstance(v, ast.ListComp) and not v.generators[0].ifs and len(v.generators) == 1 and isinstance(v.elt, ast.Call) and len(v.elt.args) == 1 \
+                        and isinstance(v.elt.args[0], ast.Name) and isinstance(v.generators[0].target, ast.Name) and v.elt.args[0].id == v.generators[0].target.id:
+                    per.append(set(HELPER_ESCAPES.get((dotted(v.elt.func) or "").split(".")[-1], set())))
+                else:
+                    ok = False
+            if ok and per:
+                esc = set.intersection(*per)
     return esc
 
 
